@@ -174,6 +174,8 @@ def _final_state_contract(front, with_solve):
               max_paths=32, concolic=False)
     def fs(c):
         lens, v, prob, (t1, t2, w1, w2) = _problem(c, bounds=True)
+        # the lens is edited by hand after the variables were declared: "the state before the run" is not the state at declaration
+        lens.set_thickness(c.real('gap_edited_after_the_variables_were_declared', 1.0, 9.0, positive=True), 1)
         if with_solve:
             lens.solves.add('marginal_ray_height', 3, 0.0)        # keeps the image at the paraxial focus
         om = c.mod('optiland.optimization.optimization')
@@ -233,6 +235,21 @@ def _final_state_contract(front, with_solve):
             om.optimize = real_opt
         for i, var in enumerate(prob.variables):
             c.ensure_eq('C14.final_state.second_run_after_undo_ends_at_its_returned_vector', c.val(var.value), c.val(res2.x[i]))
+        # optimise / optimise / undo: undo() takes back the *last* run only -- the lens is where the run before it left it
+        x_before_third = [c.val(var.value) for var in prob.variables]
+        om.optimize = _scipy_stub(c, log)
+        try:
+            if front in ('differential_evolution', 'differential_evolution_mp'):
+                opt.optimize(maxiter=5, disp=False, workers=1)
+            elif front == 'least_squares':
+                opt.optimize(maxiter=5)
+            else:
+                opt.optimize(maxiter=5, disp=False)
+        finally:
+            om.optimize = real_opt
+        opt.undo()
+        for i, var in enumerate(prob.variables):
+            c.ensure_eq('C14.undo.after_two_runs_restores_the_state_before_the_last_run', c.val(var.value), x_before_third[i])
     return fs
 
 
